@@ -51,7 +51,8 @@ CHECKS = {
          "continues, a failed read leaves every held object alive and registered; and every token list the PEG interpreter "
          "can return on the regenerated grammar is well-shaped (C16_grammar_shape), so the hypothesis holds for everything "
          "read_pil can receive. Partial: model-level outcome kinds (OutOfFuel/BadRequest/Unmodelled) are not excluded by a "
-         "theorem; lengths above sys.maxsize are outside the model (known finding). "
+         "theorem. Lengths of any size (0, above sys.maxsize) are inside the model after the repairs 456c169 / 19f1c7b of two "
+         "defects this check and C04 had found; the two documents are read on every run. "
          "Every run also executes 40 kinds of single-fault corruptions of generated documents and token-level mutations "
          "against the implementation and reports any undeclared exception with the document as replay.",
     design="DESIGN.md 7 (C16)", technique="Coq proof over the regenerated global-reference table and on the reader model; fault streams on the implementation as support"),
@@ -172,9 +173,10 @@ CHECKS = {
          "as the recorded C04 finding).",
     design="DESIGN.md 6, 7 (C01)", technique="Coq proof (invariant by induction over operation lists on a heap/registry state machine) + model/implementation correspondence for histories"),
  "C04": dict(
-    text="Proof: complementary domains of one class have equal lengths in every reachable state, for arbitrary nonzero class "
-         "constants, nonzero explicit lengths and names with an unstarred base; the model refutes the statement without "
-         "these guards (two witnesses, replayed on the implementation on every run and recorded as known findings); what ~d "
+    text="Proof: complementary domains of one class have equal lengths in every reachable state, for arbitrary class "
+         "constants and every explicit length (zero and negative included, after the repair 456c169 of the zero-length defect "
+         "this check had found) and names with an unstarred base; the model refutes the statement for double-starred names "
+         "(witness replayed on the implementation on every run, recorded known finding); ~d is never refused; what ~d "
          "returns has toggled name / same length / same class and ~~d is d; dtype rules exact; contradictory dtype/length "
          "refused without change. Tie: every history of depth 4 (quick) / 5 (thorough) over a small alphabet, subclasses with "
          "changed constants, random long histories.",
